@@ -75,6 +75,9 @@ class NoiseProtocolDouble(object):
         return self.layer._incoming_segments_queue.get(False)
 
 
+EDGE_INFO = None          # set by harnesses that log in with a profile carrying edge routing info (bytes)
+
+
 def build(reconnect_opt, real_noise=False):
     import yowsup.layers as L
     from yowsup.stacks.yowstack import YowStack, YowStackBuilder
@@ -180,7 +183,7 @@ def build(reconnect_opt, real_noise=False):
     prof.axolotl_manager = ST.ManagerStub(True)
     if real_noise:
         from yowsup.config.v1.config import Config
-        prof.config = Config(phone=prof.username, client_static_keypair=KeyPair.from_bytes(bytes(range(1, 65))), server_static_public=PublicKey(bytes(range(100, 132))))
+        prof.config = Config(phone=prof.username, client_static_keypair=KeyPair.from_bytes(bytes(range(1, 65))), server_static_public=PublicKey(bytes(range(100, 132))), edge_routing_info=EDGE_INFO)
         prof.write_config = lambda c: None
     st.setProp("profile", prof)
     iq = [s for s in st.getLayer(5 if real_noise else 3).sublayers if type(s).__name__ == "YowIqProtocolLayer"][0]
@@ -360,7 +363,7 @@ def h_history(ctx, n, prefix=(), real_noise=False):
             if real_noise:
                 stream = b"".join(x for x in w.wire if isinstance(x, bytes))
                 obs.append((tag + ": the login starts fresh on the wire: raw prologue, then the handshake's first message as one whole frame (%r)" % stream[:24],
-                            stream == b"WA\x04\x00" + b"\x00\x00\x0c" + b"client-hello"))
+                            stream == (b"ED\x00\x01" + len(EDGE_INFO).to_bytes(3, "big") + EDGE_INFO if EDGE_INFO else b"") + b"WA\x04\x00" + b"\x00\x00\x0c" + b"client-hello"))
             g.update(up=True, pending=False, ever=True)
         else:
             obs.append((tag + ": no spurious connected announcement", ups == 0))
